@@ -447,6 +447,7 @@ type Cluster struct {
 	tag                                      string
 	QueueMismatch                            int // queue mode: pops the driver's model of the queue filter did not predict
 	QueueStuck                               bool
+	QueueSlow                                bool // a predicted pop needed longer than QueueWatchdog (but happened, unless QueueStuck)
 	Delivered, Dropped, Duplicated, Timeouts int
 }
 
